@@ -2,7 +2,7 @@
 # development aid: confirm a sub-agent's mutant in its scratch worktree and store it under /verif/seeded/<id>/
 # usage: tools_confirm.sh <worktree> <k> <PROP>
 WT="$1"; K="$2"; PROP="$3"
-ID="${PROP}-m${K}"
+OFF="${4:-0}"; ID="${PROP}-m$((K+OFF))"
 M="$WT/_mut/$K"
 OUT=/verif/seeded/$ID
 LOG=/tmp/confirm_$ID.log
